@@ -88,7 +88,8 @@ class CompArea:
 
 def build(img, *, cluster_bits, K=1, version=3, header_length=104, host_shift=0, l2_shift=0, copied=True, backing_name=None,
           comp_maximal=False, comp_base_cluster=None, file_id=0, data_fid=1, snapshots=(), extra_ext=(), name=None,
-          incompat_extra=0, compression_type=None, crypt=0, size_bytes=None, reserved_l1_bits=0, l1_pad=0, lazy_desc=True):
+          incompat_extra=0, compression_type=None, crypt=0, size_bytes=None, reserved_l1_bits=0, l1_pad=0, lazy_desc=True,
+          meta_base=2, snap_table=None, comp_level=6, want_extents=False):
     """img: abstract Qcow2 image {"ext","datafile","l2n","s","l1","l2","back","size"}; K real clusters per abstract
     cluster.  Returns (image VirtualFile, data VirtualFile|None, info)."""
     cs = 1 << cluster_bits
@@ -107,12 +108,12 @@ def build(img, *, cluster_bits, K=1, version=3, header_length=104, host_shift=0,
     size_b = img["size"] * cell if size_bytes is None else size_bytes
     nl1_real = nl1 + l1_pad
     l1_clusters = -(-(nl1_real * 8) // cs)
-    l1_cluster = 2
+    l1_cluster = meta_base
     l2_cluster0 = l1_cluster + l1_clusters + l2_shift
     comp_cluster = l2_cluster0 + nl1 if comp_base_cluster is None else comp_base_cluster
     ncomp_real = (max([e["h"] for e in img["l2"].values() if e["t"] == "C"], default=-1) + 1) * K
-    slot = max(256, cs // 8 + 128)
-    comp = CompArea(comp_cluster * cs, slot, cs)
+    slot = max(256, cs // 8 + 128) if comp_level else cs + 128
+    comp = CompArea(comp_cluster * cs, slot, cs, level=comp_level)
     comp_clusters = -(-(ncomp_real * slot + 64) // cs) if ncomp_real else 0
     maxh = max([e["h"] for e in img["l2"].values() if e["t"] in ("N", "ZA")], default=-1)
     data_base = (comp_cluster + comp_clusters + host_shift) if not img["datafile"] else 0
@@ -178,19 +179,16 @@ def build(img, *, cluster_bits, K=1, version=3, header_length=104, host_shift=0,
         xs.append((EXT_BACKING_FORMAT, b"raw"))
     if img["datafile"]:
         xs.append((EXT_DATA_FILE, b"data file.raw"))
-    snap_off = 0
-    snap_bytes = b""
-    if snapshots:
-        snap_off = 1 * cs + 4096 if cs > 8192 else (comp_cluster + comp_clusters + host_shift + (maxh + 2) * K) * cs
+    snap_off, nsnap = (snap_table if snap_table else (0, 0))
     hdr_len = 72 if version == 2 else header_length
     hb = header(version=version, cluster_bits=cluster_bits, size=size_b, l1_size=nl1_real, l1_offset=l1_cluster * cs,
                 refcount_offset=1 * cs, backing_name=bname, backing_offset=0, incompat=incompat, header_length=hdr_len,
-                compression_type=compression_type, crypt=crypt, extensions=xs, nb_snapshots=len(snapshots), snapshots_offset=snap_off)
+                compression_type=compression_type, crypt=crypt, extensions=xs, nb_snapshots=nsnap, snapshots_offset=snap_off)
     if bname:
         boff = len(hb)
         hb = header(version=version, cluster_bits=cluster_bits, size=size_b, l1_size=nl1_real, l1_offset=l1_cluster * cs,
                     refcount_offset=1 * cs, backing_name=bname, backing_offset=boff, incompat=incompat, header_length=hdr_len,
-                    compression_type=compression_type, crypt=crypt, extensions=xs, nb_snapshots=len(snapshots), snapshots_offset=snap_off)
+                    compression_type=compression_type, crypt=crypt, extensions=xs, nb_snapshots=nsnap, snapshots_offset=snap_off)
         assert len(hb) == boff
         hb += bname
     assert len(hb) <= cs, "header area exceeds the first cluster"
@@ -203,6 +201,45 @@ def build(img, *, cluster_bits, K=1, version=3, header_length=104, host_shift=0,
         data_vf = VirtualFile(max(span, 1), [(0, span, "pat", data_fid)] if span else [], fid=data_fid)
     elif span:
         exts.append((data_base * cs, span, "pat", file_id))
+    info = {"cell": cell, "size": size_b, "data_base": data_base * cs, "cs": cs, "K": K, "l1_offset": l1_cluster * cs, "l1_size": nl1_real,
+            "end_cluster": max(-(-(e[0] + e[1]) // cs) for e in exts)}
+    if want_extents:
+        return exts, data_vf, info
     fsize = max(e[0] + e[1] for e in exts)
     vf = VirtualFile(fsize, exts, fid=file_id, name=name)
-    return vf, data_vf, {"cell": cell, "size": size_b, "data_base": data_base * cs, "cs": cs, "K": K}
+    return vf, data_vf, info
+
+
+def snapshot_entry(l1_offset, l1_size, id_str, name, *, extra_size=16, disk_size=0, vm_state_size=0, date_sec=0x5F000000,
+                   date_nsec=7, vm_clock=123456789, icount=0xFFFFFFFFFFFFFFFF, pad=True):
+    idb, nb = id_str.encode(), name.encode()
+    extra = struct.pack(">QQQ", vm_state_size, disk_size, icount)[:extra_size].ljust(extra_size, b"\xEE")
+    e = struct.pack(">QIHHIIQII", l1_offset, l1_size, len(idb), len(nb), date_sec, date_nsec, vm_clock, vm_state_size & 0xFFFFFFFF, extra_size)
+    e += extra + idb + nb
+    if pad:
+        e += bytes((-len(e)) % 8)
+    return e
+
+
+def build_with_snapshots(active, snaps, *, cluster_bits, K=1, file_id=0, snap_meta=None, **kw):
+    """active / snaps: abstract images over the same geometry. Every snapshot gets its own L1/L2 tables and host
+    clusters in a disjoint region of the same file. snap_meta: [(id, name, extra_size)].
+    Returns (VirtualFile, [info_active, info_snap0, ...])."""
+    cs = 1 << cluster_bits
+    ex_a, _, ia = build(active, cluster_bits=cluster_bits, K=K, file_id=file_id, want_extents=True, **kw)
+    base = ia["end_cluster"] + 1
+    infos = [ia]
+    all_ext = []
+    entries = b""
+    for k, sn in enumerate(snaps):
+        ex_s, _, isn = build(sn, cluster_bits=cluster_bits, K=K, file_id=file_id, want_extents=True, meta_base=base, **kw)
+        all_ext += [e for e in ex_s if e[0] != 0]  # drop the snapshot build's header
+        infos.append(isn)
+        sid, sname, xs = (snap_meta[k] if snap_meta else (str(k + 1), f"snap {k + 1}", 16))
+        entries += snapshot_entry(isn["l1_offset"], isn["l1_size"], sid, sname, extra_size=xs, disk_size=isn["size"])
+        base = isn["end_cluster"] + 1
+    snap_off = base * cs
+    ex_a, _, ia = build(active, cluster_bits=cluster_bits, K=K, file_id=file_id, want_extents=True, snap_table=(snap_off, len(snaps)), **kw)
+    all_ext += ex_a + [(snap_off, len(entries), "bytes", entries)]
+    fsize = max(e[0] + e[1] for e in all_ext)
+    return VirtualFile(fsize, all_ext, fid=file_id), infos
